@@ -1,21 +1,23 @@
 #!/bin/bash
-# dev helper: run one property test across 16 shards directly (no supervisor)
-# usage: devrun.sh TestC01 [tier]
-T=$1; TIER=${2:-quick}
-OUT=/tmp/vh/out.$T; rm -rf "$OUT"; mkdir -p "$OUT"
-cd /tmp/vh
-for i in $(seq 0 15); do VERIF_TIER=$TIER VERIF_OUT=$OUT VERIF_SHARD=$i/16 /verif/.build/bin/verifh.test -test.run "$T\$" -test.timeout 0 > $OUT/log.$i 2>&1 & done; wait
+# dev helper: run one property test across N shards directly (no supervisor)
+# usage: devrun.sh TestC01 [tier] [shards] [mode]
+HERE=$(cd "$(dirname "$0")/.." && pwd)
+T=$1; TIER=${2:-quick}; N=${3:-16}; MODE=${4:-}
+OUT=/tmp/vh-$(basename "$HERE")/out.$T; rm -rf "$OUT"; mkdir -p "$OUT/scratch"
+cd "$OUT/scratch"
+for i in $(seq 0 $((N-1))); do VERIF_DIR=$HERE VERIF_MODE=$MODE VERIF_SCRATCH=$OUT/scratch VERIF_TIER=$TIER VERIF_OUT=$OUT VERIF_SHARD=$i/$N "$HERE/.build/bin/verifh.test" -test.run "^$T\$" -test.timeout 0 > "$OUT/log.$i" 2>&1 & done; wait
 python3 - "$OUT" <<'PY'
 import json,glob,sys
 from collections import Counter
-c=Counter(); sig=Counter(); ev=0; nt=set(); inc=[]; done=0
+c=Counter(); sig=Counter(); ev=0; nt=set(); inc=[]; done=0; walls=[]
 for f in glob.glob(sys.argv[1]+'/result.*.json'):
-    r=json.load(open(f)); ev+=r['evaluations']; done+=1
+    r=json.load(open(f)); ev+=r['evaluations']; done+=1; walls.append(r['wall_s'])
     nt|=set(r['nontrivial_sigs'] or [])
     inc+=r['inconclusive'] or []
     for k,v in r['counters'].items(): c[k]+=v
     for v in r['violations'] or []:
         sig[v['sig']]+=1
         if sig[v['sig']]<3: print(v['index'],v['sub'],v['summary'][:400])
-print('shards done',done,'evals',ev,'nontrivial',len(nt)); print(dict(c)); print(dict(sig)); print(inc[:5])
+print('shards done',done,'evals',ev,'nontrivial',len(nt),'max shard wall %.1fs'%(max(walls) if walls else 0)); print(dict(c)); print(dict(sig)); print(inc[:5])
+print('results/logs in',sys.argv[1])
 PY
